@@ -1,5 +1,5 @@
 PROP = {
-    "thm": ["Umya.Thm.C14", "Umya.Thm.C14Gen"],
+    "thm": ["Umya.Thm.C14", "Umya.Thm.C14Gen", "Umya.Thm.C14Info", "Umya.Thm.C14InfoGen"],
     "frame_shared_state": True,
     "harness": "c14",
     "level": "proof",
@@ -9,7 +9,12 @@ PROP = {
                   "MS-OFFCRYPTO 2.3.4.10-15 decryptor and verifier are written independently from the standard; for ALL packages "
                   "(< 4 GiB), passwords and random draws the decryptor returns exactly the package (verifier matches, HMAC over the whole "
                   "EncryptedPackage stream verifies, declared length = package length), encrypt never panics, the stream length is "
-                  "8 + 16*ceil(n/16) for every n, and a password rejected by the verifier yields no plaintext. The model is tied to the "
+                  "8 + 16*ceil(n/16) for every n, and a password rejected by the verifier yields no plaintext. These statements hold from the two STREAM "
+                  "CONTENTS (C14_decrypts_text / C14_verifier_hmac_len_text / C14_wrong_password_text: Agile.decryptFile / verifyFile on the EncryptionInfo "
+                  "bytes build_encryption_info writes and the EncryptedPackage bytes), because the independent stream reader Agile.parseInfo (header check, "
+                  "the XML 1.0 reader of Spec/XmlLex, a namespace-resolving walk over the element tree) returns exactly the descriptor for EVERY descriptor "
+                  "with plain texts (C14_info_parses; route: the text is renderDoc of a tree of writer calls, C14_info_text_is_writer_calls, then "
+                  "C02_bytes_parse); C14_source_streams_decrypt chains this with the compiled encrypt_parts. The model is tied to the "
                   "code on every run: real files written by write_with_password / write_with_password_light / set_password are opened with "
                   "the cfb crate and decrypted by the Lean decryptor (executable SHA-512/AES/HMAC/base64 in Lean) and by an independent Rust "
                   "decryptor (aes/cbc/sha2/hmac crates, harness/src/ind.rs); with the recovered random material the Lean model of encrypt "
@@ -17,12 +22,20 @@ PROP = {
     "level_note": "SHA-512, AES-256-CBC, HMAC-SHA-512 and base64 are NOT proved: theorems quantify over an abstract Prims value with the "
                   "explicit laws Prims.Lawful (digest/HMAC = 64 bytes, AES-CBC keeps the length and decrypt inverts encrypt on block-aligned "
                   "input with a 32-byte key and 16-byte IV, unb64 (b64 x) = some x). 'Another password fails' is conditional on the explicit "
-                  "hypothesis VerifierRejects (a cryptographic assumption). The executable Lean primitives are validated by FIPS 180-4 / "
+                  "hypothesis VerifierRejects (a cryptographic assumption). The *_text theorems add B64Plain P (base64 text is printable ASCII without "
+                  "& < > \" '). For the EXECUTABLE base64 (Model/Base64.lean, the driver's instance) both base64 laws are theorems for all byte strings: "
+                  "C14_base64_roundtrip (decode (encode x) = some x, induction on 3-byte groups) and C14_base64_plain. The executable Lean primitives are validated by FIPS 180-4 / "
                   "FIPS 197 / SP 800-38A / RFC 4231 / RFC 4648 vectors (op `c14 selftest`) and by agreement with the Rust crates on every line. "
-                  "Theorems are about the descriptor record; the XML text and the scanner are executed and compared, their round trip is not proved.",
+                  "Bytes <-> characters of the EncryptionInfo stream is the byte-wise reading on both sides (every character of a plain descriptor's text is ASCII: proved). "
+                  "On every `decrypt` line the driver also checks, on the REAL stream: prefix + renderDoc(infoW(parsed descriptor)) equals the stream byte for byte "
+                  "(text=same), the hypothesis InfoWF of C14_info_parses holds of the parsed descriptor (wf=ok), and the older text scanner scanInfo reads the same "
+                  "descriptor (scan=same).",
     "expect_theorems": ["C14_constants_match_source", "C14_hash_matches_source", "C14_info_matches_source", "C14_kdf_matches_source", "C14_iv_matches_source", "C14_package_matches_source",
                         "C14_encrypt_parts_matches_source", "C14_no_panic", "C14_decrypts", "C14_verifier_hmac_len", "C14_sizes", "C14_declared_size",
-                        "C14_declared_size_4GiB_fails", "C14_wrong_password"],
+                        "C14_declared_size_4GiB_fails", "C14_wrong_password",
+                        "C14_info_text_is_writer_calls", "C14_info_parses", "C14_info_tree", "C14_base64_roundtrip", "C14_base64_plain",
+                        "C14_encrypt_info_wf", "C14_decrypts_text", "C14_verifier_hmac_len_text", "C14_wrong_password_text",
+                        "C14_source_streams_decrypt"],
     "rule": "hook stream: convert_password_to_key (6 passwords x spin {0,1,2,3,50} x keyBits {256,128,512,520,8,0} x salts, one at spin 100000 = "
             "the crate's own test vector), create_iv (block sizes 0..100), crypt (good and panicking key/iv/input lengths), crypt_package on "
             "22 sizes around 16/4096 multiples; end-to-end stream: 6 passwords (empty, ASCII, XML-special, BMP, non-BMP, 255 chars mixed) x 10 cases "
@@ -44,11 +57,15 @@ PROP = {
     ],
     "assumptions": ["Prims.Lawful P (see level_note)", "random material has the sizes gen_random_32/16/64 return (Randoms.wellFormed)",
                     "package length < 2^32 for C14_decrypts / C14_verifier_hmac_len (the code writes StreamSize as `len as u32`)",
-                    "C14_wrong_password: VerifierRejects P spin pw pw' rho"],
+                    "C14_wrong_password(_text): VerifierRejects P spin pw pw' rho",
+                    "C14_info_parses: InfoWF i (the thirteen texts of the descriptor are printable ASCII without & < > \" '; decidable, evaluated on every real descriptor: wf=ok)",
+                    "C14_*_text, C14_source_streams_decrypt: B64Plain P (a theorem for the executable base64)"],
     "partial_clauses": [
         "freshness of key salt, package salt, package key, verifier input, HMAC key: not a functional property; explored by the harness (all five values of every save differ from all earlier ones), not proved",
         "declared length at >= 4 GiB: the model of the unchanged code declares n mod 2^32 (theorem C14_declared_size, refutation C14_declared_size_4GiB_fails); not replayable by the harness (needs a 4 GiB package), no code change made",
-        "round trip of the EncryptionInfo XML text through Agile.parseInfo: checked at run time on every `encrypt` line (rt=ok) and byte-compared with the real stream, not proved",
+        "the cfb compound-file container around the two streams is outside the model (trusted to the cfb crate on both sides); the theorems start from the stream contents",
+        "the quick-xml writer stays an extern of the translator tie: C14_info_matches_source reads write_start_tag as the model's unescaped startTag; that this equals "
+        "writer/driver.rs's escaping write_start_tag on the values that occur is now a theorem for plain texts (C14_info_text_is_writer_calls) and checked on every real stream (text=same)",
         "replay of a lone derived `encrypt` line re-assembles the streams from the hooked building blocks (encrypt cannot be given its random material)",
     ],
     "technique": "Lean 4 proof over a hand model (abstract SHA-512/AES/HMAC/base64) + differential check: real files decrypted by a Lean and a Rust MS-OFFCRYPTO decryptor",
